@@ -276,11 +276,22 @@ class Facts:
             others = [m for m in missing if m != q and m.rsplit('::', 1)[0] == q.rsplit('::', 1)[0] and known[m] == sig]
             if len(cands) == 1 and not others:
                 self.aliases[q] = cands[0].qname
+                continue
+            # a free function that became a method of a new type of its module, under its own name
+            # (`define_variable(env, defg, var)` -> `Resolver::define_variable(&mut self, var)`)
+            mod, name = q.rsplit('::', 1)
+            meth = [f for m2, fs in fresh.items() if m2.rsplit('::', 1)[0] == mod for f in fs if f.kind == 'AssocFn' and f.qname.rsplit('::', 1)[1] == name and f.d.get('sig_output') == sig['out']]
+            if sig['kind'] == 'Fn' and len(meth) == 1 and not cands:
+                self.aliases[q] = meth[0].qname
         try:
             import pathrules
             pathrules.set_aliases(self.aliases)
         except ImportError:
             pass
+
+    def known_fns_or_aliases(self):
+        """names of the functions of the pinned tree, with the names recognised renames go by today"""
+        return (self.known_fns or set()) | set(self.aliases.values())
 
     def missing_units(self):
         return [u for u in UNITS if u not in self.crates]
@@ -407,6 +418,10 @@ class Facts:
         if depth > 0 and fn.mir:
             mod = fn.qname.rsplit('::', 1)[0]
             scope = mod.rsplit('::', 1)[0] if fn.kind == 'AssocFn' or fn.kind == 'Closure' else mod
+            if '::<' in fn.qname:
+                # a method of a trait impl (`oal_wasm::<WebLoader<'_> as module::Loader<..>>::compile`): the module the
+                # impl is written in, as far as the name tells - the crate path before the `<`
+                scope = fn.qname.split('::<')[0]
             for b, t in fn.calls():
                 info = callee_of(t)
                 g = self.fns.get((info or {}).get('resolved_id') or (info or {}).get('id')) if info else None
@@ -467,6 +482,7 @@ class Facts:
         mir = copy.deepcopy(fn.mir)
         blocks = mir['blocks']
         locals_ = mir['locals']
+        n_orig = len(blocks)
         changed = False
 
         def remap(x, off, boff):
@@ -523,6 +539,7 @@ class Facts:
         if not changed:
             cache[key] = fn
             return fn
+        self._devirtualise(fn, mir, n_orig, remap)
         d2 = dict(fn.d)
         d2['mir'] = mir
         out = Fn(fn.crate, d2)
@@ -588,6 +605,87 @@ class Facts:
                                 caps[base + k] = refs.get(o['l'], o) if not o['proj'] else o
         cache[key] = (view, caps)
         return cache[key]
+
+    def _devirtualise(self, fn, mir, n_orig, remap):
+        """In the spliced bodies of a view: a call of a parameter (`op(path)` in a generic helper `with_path(loc, op)`)
+        whose value is known at the call site of the helper - a function item or a closure of the caller - becomes a call
+        of that function, resp. the spliced body of that closure.  Only blocks that came from inlined helpers are
+        touched, so the view of a function without new helpers is unchanged."""
+        import copy
+        blocks, locals_ = mir['blocks'], mir['locals']
+
+        def defs_of(l):
+            out = []
+            for blk in blocks:
+                for st in blk['stmts']:
+                    if st['s'] == 'assign' and st['place']['l'] == l and not st['place']['proj']:
+                        out.append(st['rv'])
+            return out
+
+        def origin(op, depth=0):
+            """the constant function item or the closure aggregate an operand is a copy of"""
+            if op.get('o') == 'const':
+                return ('fn', op) if 'fn' in op else None
+            if 'l' not in op or op['proj'] or depth > 8:
+                return None
+            ds = defs_of(op['l'])
+            if len(ds) != 1:
+                return None
+            rv = ds[0]
+            if rv['r'] == 'use':
+                return origin(rv['op'], depth + 1)
+            if rv['r'] == 'ref':
+                return origin(dict(rv['place'], o='copy'), depth + 1)
+            if rv['r'] == 'aggr' and rv.get('ak') == 'closure':
+                return ('closure', rv)
+            return None
+        closures = {c2.id: c2 for c2 in self.closures_of(self.fns.get(fn.id, fn))}
+        i = n_orig
+        budget = 12
+        while i < len(blocks) and budget > 0:
+            b = blocks[i]
+            i += 1
+            t = b['term']
+            if b.get('cleanup') or t['t'] != 'call' or not t.get('args'):
+                continue
+            info = callee_of(t)
+            if not info or info['def'].split('::')[-1] not in ('call_once', 'call_mut', 'call') or 'ops::Fn' not in info['def']:
+                continue
+            o = origin(t['args'][0])
+            if o is None:
+                continue
+            # the elements of the argument tuple
+            elems = None
+            if len(t['args']) > 1 and 'l' in t['args'][1] and not t['args'][1]['proj']:
+                ds = defs_of(t['args'][1]['l'])
+                if len(ds) == 1 and ds[0]['r'] == 'aggr' and ds[0].get('ak') == 'tuple':
+                    elems = ds[0]['ops']
+            if elems is None:
+                continue
+            if o[0] == 'fn':
+                t['func'] = o[1]
+                t['args'] = list(elems)
+                t['devirtualised'] = True
+                budget -= 1
+            else:
+                cl = closures.get(o[1].get('closure_id'))
+                if cl is None or not cl.mir or t.get('target') is None or len(cl.mir['blocks']) > 60:
+                    continue
+                off, boff = len(locals_), len(blocks)
+                locals_.extend(copy.deepcopy(cl.mir['locals']))
+                for gb in cl.mir['blocks']:
+                    nb = remap(copy.deepcopy(gb), off, boff)
+                    if nb['term']['t'] == 'return':
+                        nb['stmts'] = nb['stmts'] + [{'s': 'assign', 'ln': t.get('ln'), 'place': t['dest'], 'rv': {'r': 'use', 'op': {'o': 'move', 'l': off, 'proj': [], 'ty': cl.mir['locals'][0]['ty']}}}]
+                        nb['term'] = {'t': 'goto', 'target': t['target'], 'ln': t.get('ln')}
+                    blocks.append(nb)
+                pre = [{'s': 'assign', 'ln': t.get('ln'), 'place': {'l': off + 1, 'proj': [], 'ty': t['args'][0].get('ty', '')}, 'rv': {'r': 'use', 'op': t['args'][0]}}]
+                for k, a in enumerate(elems):
+                    pre.append({'s': 'assign', 'ln': t.get('ln'), 'place': {'l': off + 2 + k, 'proj': [], 'ty': a.get('ty', '')}, 'rv': {'r': 'use', 'op': a}})
+                b['stmts'] = b['stmts'] + pre
+                b['term'] = {'t': 'goto', 'target': boff, 'ln': t.get('ln'), 'inlined': cl.qname}
+                mir.setdefault('inlined_fns', []).append(cl.id)
+                budget -= 1
 
     def reachable(self, roots):
         cg = self.callgraph()
